@@ -51,7 +51,10 @@ def seg_kind_at(rec, pos):
         if pos < off + ln:
             return g["kind"]
         off += ln
-    return "raw" if rec.get("raw") else "end"
+    for f in rec.get("feat") or []:
+        if f.startswith("src:"):
+            return f[4:]
+    return "end"
 
 
 def signature(rec, info):
@@ -186,7 +189,7 @@ def run(ctx):
     fails += validate(ctx, gex)
     ctx.count(len(gex), [(tuple(r["text"]), r["mode"], tuple(r["sizes"])) for r in gex if r["text"]])
     # 3. T: random records
-    recs = gen(ctx, 1500 if q else 40000, ctx.seed, 6 if q else 12)
+    recs = gen(ctx, 1000 if q else 40000, ctx.seed, 6 if q else 12)
     feats = Counter(f for r in recs for f in r["feat"])
     ctx.cov["features"] = dict(feats)
     need = ["wellformed", "neg", "long", "mut:oddhex", "mut:nonhex", "mut:nosep", "mut:noterm", "mode:one", "mode:rand", "mode:dataeof"]
@@ -196,4 +199,6 @@ def run(ctx):
     ctx.count(len(recs), [(tuple(r["text"]), r["mode"], tuple(r["sizes"])) for r in recs if r["text"]],
               [{"text": show(r["text"], 60), "segs": [g["kind"] for g in r["segs"]], "mode": r["mode"],
                 "res": [x["kind"] for x in r["res"]]} for r in recs[:4]])
+    if fails:
+        ctx.log("rejected experiments by class:", dict(Counter(f.signature for f in fails)))
     ctx.report(fails, confirm_factory(ctx))
